@@ -1,5 +1,8 @@
+#[cfg(okane_verif)]
+use crate::verif::{hash_map, HashMap};
+#[cfg(not(okane_verif))]
+use std::collections::{hash_map, HashMap};
 use std::{
-    collections::{hash_map, HashMap},
     fmt::Display,
     iter::FusedIterator,
     ops::{Add, AddAssign, Mul, MulAssign, Neg, Sub, SubAssign},
